@@ -23,6 +23,9 @@ CLAIMED = {
  "C01": dict(cat="proof", tech="Lean 4 mutual-induction theorem decode_encode over the closed wowm syntax (all programs, all values) + corpus re-translated from the wowm sources + structure-directed correspondence with the libraries' public readers/writers",
              text="Lean proves, by mutual structural induction over the closed syntax (structs, fixed/counted/endless arrays, if / else-if / else over enums and flags, optional tails, constants, self.size, strings, packed guids, upcast enums), that for every well-formed container and every value the specification decoder returns exactly the value and consumes exactly the specification encoding — so the canonical encodings of a definition are a well-defined, uniquely readable set. The wowm corpus is re-translated into that syntax on every run by an independent reader, well-formedness is checked for every container, and for every version-expanded message structure-directed canonical encodings are framed, read through the libraries' opcode readers and written back; bytes, consumed length and message identity must agree. Messages with compressed parts or the rarer built-ins are listed, not yet modelled. Three genuine defects are listed as known findings.",
              note="Trusted: Lean kernel; tools/wowm.py + tools/corpus.py (translation of the wowm sources); the every-value quantifier is carried by the theorem on the specification side and by branch-directed sampling on the Rust side; Rust harness.", ref="§4 C01"),
+ "C04": dict(cat="proof", tech="Lean 4 theorems (enum rejection at full wire width, size_reject for every constant-sized container by mutual induction, soundness of the read-expression checker) + T-gen of all enum read sites and opcode tables + corruption correspondence",
+             text="Lean proves for the specification decoder that an undeclared number at an enum field's full wire width is an error reporting that number, and — by mutual induction over the syntax — that a container of constant size never decodes from a body of another length (size_reject). For the generated side, every enum read expression of every generated reader (760 sites) is re-extracted and classified by a checker whose soundness theorem says accepted shapes reject every undeclared wire value reporting it (the narrowing `as` cast shape is proved to alias); opcode match arms of all six opcode readers are compared with the wowm opcode sets. Canonical encodings with one enum field corrupted (aliases modulo 2^8/2^16, neighbours, maxima), constant-sized messages with other body lengths and undefined opcodes are run through the libraries.",
+             note="Trusted: Lean kernel; tools/rust_reads.py, wowm.py, corpus.py; Rust harness. The narrowing-cast defect was repaired in /repo (fix commit).", ref="§4 C04"),
 }
 NA_REASON = "not yet claimed: machinery for this property is still under construction (see DESIGN.md §7 order of construction)"
 
